@@ -102,7 +102,7 @@ def prove(pid, extra_targets=()):
     rc, out = sh([os.path.join(ROOT, 'tools', 'build_coq.sh')] + targets)
     if rc != 0:
         raise Broken('coq build failed for %s' % ' '.join(targets), out[-3000:])
-    rc, out = sh(['coqc', '-Q', COQ, 'BiomV', props], cwd=COQ, timeout=900)
+    rc, out = sh('ulimit -v 16000000 2>/dev/null; exec coqc -Q "%s" BiomV "%s"' % (COQ, props), cwd=COQ, timeout=900)
     if rc != 0:
         raise Broken('Props/%s.v no longer checks' % pid, out[-3000:])
     src = strip_comments(open(props).read())
